@@ -92,6 +92,8 @@ def h_parse(ctx):
     sp.field_sorts[('setitem', 'openrule')] = lambda I_, o, k, v, node: None
     sp.field_sorts[('openrule', '[]')] = lambda I_, o, k, node: Untracked()
     sp.field_sorts[('contains', 'openrule')] = lambda I_, c, item, node: I_.ctx.fresh('key_present', BoolS)
+    for meth in ('setdefault', 'get', 'update', 'pop', 'keys', 'items', 'values', 'copy'):
+        sp.models['method:Obj:openrule.' + meth] = Func(lambda I_, a, k, nd: Untracked())        # dict methods on the rule being collected: content abstract
     calls = {'n': 0}
 
     def m_add_rule(I_, a, k, nd):
